@@ -124,7 +124,14 @@ impl<'a, T> IterVectorsMut<'a, T> {
         vector_stride: NonZero<usize>,
         vector_length: NonZero<usize>,
     ) -> Self {
-        let lower = buffer;
+        // For zero-sized types the pointers are only counters and are never
+        // dereferenced. Counting from `1` instead of from the (aligned) dangling
+        // address keeps `lower + offset <= size <= usize::MAX` for any alignment.
+        let lower = if size_of::<T>() == 0 {
+            unsafe { NonNull::new_unchecked(without_provenance_mut(1)) }
+        } else {
+            buffer
+        };
         let offset = axis_stride.get() * (axis_length.get() - 1);
         let upper = if size_of::<T>() == 0 {
             let addr = lower.addr().get() + offset;
